@@ -642,11 +642,20 @@ def _whole_files(ctx, rid, repo):
     ctx.touch(rp)
     errs = (Undecided, KeyError, TypeError, ValueError, IndexError, AttributeError)
 
-    def spec():
+    # eight more normalisation factors with long names, all held constant in the first measurement: the list of constant
+    # parameters written into the measurement is a long text (more than 200 characters)
+    LONG = [f"norm_background_process_number_{j:02d}" for j in range(8)]
+
+    def spec(gen=""):
+        def at(n_):
+            return Poly.atom(n_ + gen)
+
+        bkg = "bkg" + gen
+
         def ch(name, tag, n):
             return {"name": name, "samples": [
-                {"name": "sig", "data": [at(f"{tag}s{j}") for j in range(n)], "modifiers": [{"name": "mu", "type": "normfactor", "data": None}, {"name": "lumi", "type": "lumi", "data": None}]},
-                {"name": "bkg", "data": [at(f"{tag}b{j}") for j in range(n)], "modifiers": [
+                {"name": "sig", "data": [at(f"{tag}s{j}") for j in range(n)], "modifiers": [{"name": "mu", "type": "normfactor", "data": None}, {"name": "lumi", "type": "lumi", "data": None}] + [{"name": n_, "type": "normfactor", "data": None} for n_ in LONG]},
+                {"name": bkg, "data": [at(f"{tag}b{j}") for j in range(n)], "modifiers": [
                     {"name": "jes", "type": "normsys", "data": {"lo": at(f"{tag}NLO"), "hi": at(f"{tag}NHI")}},
                     {"name": "jes", "type": "histosys", "data": {"lo_data": [at(f"{tag}l{j}") for j in range(n)], "hi_data": [at(f"{tag}h{j}") for j in range(n)]}},
                     {"name": f"staterror_{name}", "type": "staterror", "data": [at(f"{tag}e{j}") for j in range(n)]}]}]}
@@ -654,7 +663,7 @@ def _whole_files(ctx, rid, repo):
                 "observations": [{"name": "CR", "data": [at(f"Co{j}") for j in range(3)]}, {"name": "SR", "data": [at(f"So{j}") for j in range(2)]}],
                 "measurements": [{"name": "meas", "config": {"poi": "mu", "parameters": [
                     {"name": "lumi", "auxdata": [at("L")], "sigmas": [at("S")], "bounds": [[at("LB"), at("UB")]], "inits": [at("L")], "fixed": True},
-                    {"name": "mu", "inits": [at("V")], "bounds": [[at("MLO"), at("MHI")]]}, {"name": "jes", "fixed": True}]}},
+                    {"name": "mu", "inits": [at("V")], "bounds": [[at("MLO"), at("MHI")]]}, {"name": "jes", "fixed": True}] + [{"name": n_, "fixed": True} for n_ in LONG]}},
                     {"name": "other", "config": {"poi": "mu", "parameters": [{"name": "lumi", "auxdata": [at("L")], "sigmas": [at("S")], "bounds": [[at("LB"), at("UB")]], "inits": [at("L")]}]}}],
                 "version": "1.0.0"}
 
@@ -681,7 +690,7 @@ def _whole_files(ctx, rid, repo):
         ext.update(xmlmodel.file_externals(fs, store))
         ext.update({"validate": lambda a, k: None})
         menv = {"ET": Obj("ET"), "np": Obj("np"), "log": Obj("log"), "compat": Obj("compat"), "re": Obj("re"), "tqdm": Obj("tqdm"), "shutil": Obj("shutil"), "uproot": Obj("uproot"),
-                "schema_path": xmlmodel.mkpath("SCHEMAS"), "schema": Obj("schema", {"version": "1.0.0"}), "exceptions": Obj("exceptions"), "_ROOT_DATA_FILE": None,
+                "schema_path": xmlmodel.mkpath("SCHEMAS"), "schema": Obj("schema", {"version": "1.0.0"}), "exceptions": Obj("exceptions"), "_ROOT_DATA_FILE": None, "textwrap": Obj("textwrap"),
                 **rxmodel.compiled_globals(repo.module(C)), **rxmodel.compiled_globals(repo.module(W)), **rxmodel.compiled_globals(repo.module(R))}
         w = World(ext, region=AutoRegion(), module_env=menv)
         for rel_ in (W, R):
@@ -692,19 +701,36 @@ def _whole_files(ctx, rid, repo):
         w.add_class(repo.cls("src/pyhf/mixins.py", "_ChannelSummaryMixin"))
         base_iter = w.externals()["__iter__"]
         w.externals()["__iter__"] = lambda v: list(v.children) if isinstance(v, xmlmodel.Elem) else base_iter(v)
-        sp = spec()
+    except errs as e:
+        ctx.unrecognised(rid, wx, "writexml -> parse (whole functions)", f"not interpretable: {type(e).__name__}: {e}")
+        return
+    # two export / import cycles in ONE process into the SAME directory: the second workspace has the same channel names (the
+    # same file names) but other samples, yields, modifier data and parameter settings
+    for gen, cyc in (("", "first cycle"), ("B", "second cycle: another workspace exported into the same directory and imported in the same process")):
+        _whole_cycle(ctx, rid, w, wx, rp, fs, store, spec, gen, cyc, same, show, errs)
+
+
+def _whole_cycle(ctx, rid, w, wx, rp, fs, store, spec, gen, cyc, same, show, errs):
+    from .. import xmlmodel
+    from ..alg import RaisedInFragment
+
+    def at(n_):
+        return Poly.atom(n_ + gen)
+
+    try:
+        sp = spec(gen)
         top = w.call_func(wx, [sp, "out/xml", "out/data", "config"])
         if not (isinstance(top, Obj) and top.name == "xmltext" and isinstance(top.attrs.get("elem"), xmlmodel.Elem)):
             raise Undecided("writexml does not return the serialised top-level document")
         fs["out/config.xml"] = top.attrs["elem"]
         got = w.call_func(rp, ["out/config.xml", "."], {})
     except RaisedInFragment as e:
-        ctx.violated(rid, wx, "writexml -> parse (whole functions)", f"export followed by import of a two-channel workspace raises {e.exc_name}")
+        ctx.violated(rid, wx, f"writexml -> parse (whole functions) [{cyc}]", f"export followed by import of a two-channel workspace raises {e.exc_name}")
         return
     except errs as e:
-        ctx.unrecognised(rid, wx, "writexml -> parse (whole functions)", f"not interpretable: {type(e).__name__}: {e}")
+        ctx.unrecognised(rid, wx, f"writexml -> parse (whole functions) [{cyc}]", f"not interpretable: {type(e).__name__}: {e}")
         return
-    orig = spec()
+    orig = spec(gen)
     problems = []
     if not isinstance(got, dict):
         problems.append(("result", "a workspace document", type(got).__name__))
@@ -738,8 +764,9 @@ def _whole_files(ctx, rid, repo):
         else:
             pars = {p_["name"]: p_ for p_ in gmz[0]["config"]["parameters"]}
             fixed_got = sorted(n for n, p_ in pars.items() if p_.get("fixed") is True)
-            if gmz[0]["config"]["poi"] != "mu" or fixed_got != ["jes", "lumi"]:
-                problems.append(("POI / constant parameters of the first measurement", "mu / ['jes', 'lumi']", f"{gmz[0]['config']['poi']} / {fixed_got}"))
+            want_fixed = sorted(["jes", "lumi"] + [p_["name"] for p_ in orig["measurements"][0]["config"]["parameters"] if p_["name"].startswith("norm_background_process")])
+            if gmz[0]["config"]["poi"] != "mu" or fixed_got != want_fixed:
+                problems.append(("POI / constant parameters of the first measurement", f"mu / {want_fixed}", f"{gmz[0]['config']['poi']} / {fixed_got}"))
             lum = pars.get("lumi", {})
             if not (same(lum.get("auxdata"), [at("L")]) and same(lum.get("sigmas"), [at("S")])):
                 problems.append(("luminosity value / width", "auxdata [L], sigmas [S]", show({k: lum.get(k) for k in ("auxdata", "sigmas")})))
@@ -751,6 +778,6 @@ def _whole_files(ctx, rid, repo):
                 problems.append(("constant parameters of the second measurement", [], fixed2))
     if problems:
         what, exp, gotv = problems[0]
-        ctx.violated(rid, wx, f"writexml -> parse: {what}", f"writing a two-channel workspace with writexml and reading the files back with readxml.parse does not give back the {what}" + (f" (and {len(problems) - 1} more difference(s))" if len(problems) > 1 else ""), expected=str(exp), found=str(gotv))
+        ctx.violated(rid, wx, f"writexml -> parse: {what} [{cyc}]", f"writing a two-channel workspace with writexml and reading the files back with readxml.parse does not give back the {what}" + (f" (and {len(problems) - 1} more difference(s))" if len(problems) > 1 else ""), expected=str(exp), found=str(gotv))
     else:
-        ctx.holds(rid, f"{W}::writexml -> {R}::parse [whole functions over a file model]", f"{len(fs)} XML documents, {len(store)} histograms: 2 channels, observations by channel name, samples, yields, 5 modifiers each with data, 2 measurements, POI, luminosity, constant flags")
+        ctx.holds(rid, f"{W}::writexml -> {R}::parse [whole functions over a file model; {cyc.split(':')[0]}]", f"{len(fs)} XML documents, {len(store)} histograms: 2 channels, observations by channel name, samples, yields, 5 modifiers each with data, 2 measurements, POI, luminosity, constant flags")
